@@ -86,7 +86,7 @@ checks = {
 }
 not_applicable = {
 }
-pending = ["C15","C18"]
+pending = ["C18"]
 m = {
  "version": 1,
  "setup_cmd": "cd /verif/gosym && GOFLAGS=-mod=mod GOPROXY=off GOSUMDB=off GOTOOLCHAIN=local go build -o /verif/bin/gosym .",
@@ -102,6 +102,11 @@ m = {
  "not_applicable": [],
  "notes": "Properties listed under not_applicable with reason 'check not built yet' are work in progress in this session, not judged inapplicable.",
 }
+checks["C15"] = dict(
+   text="Non-interference by symbolic execution of the real validation (config.ValidateFix / CheckUserInput / ValidateFilterRefs / wstrings.Safe) followed by every real SQL text builder (config.DDL, wpg.Table.DDL/Migrate, dig.Integration.Delete, dig.Filter.Accept reference lookup incl. nested components, dig.Integration.notify, shovel.NewTask application_name): one symbolic byte is appended to each of 20 configuration string positions on the file path and on the dashboard path; whenever the configuration is accepted and a recorded SQL text is a function of the byte, z3 proves the byte is an identifier character. Chain-derived bytes must not influence any SQL text.",
+   note="ASCII assumption for symbolic configuration bytes (Safe accepts non-ASCII letters/digits: outside the claim). One appended byte per run; skeleton configuration of 2 integrations. pgx-quoted COPY identifiers count as parameters.",
+   technique="go/ssa symbolic execution -> SMT (z3), term-dependency (non-interference) check at the SQL sinks; native replay",
+   design="5/C15")
 checks["C19"] = dict(
    text="Bounded symbolic model checking of the real web.Handler.Authn, Login, isLoopback and web.New (password generation): both switches, loopback oracle, malformed address, form failure as solver Booleans, passwords as symbolic strings; z3 decides served <=> disabled or (loopback and not enforced) or own session, redirect to /login otherwise, session issued only for POST with the exact password. The route table of cmd/shovel main is read structurally from SSA.",
    note="session/age cryptography, net.ParseIP, http plumbing are cut (engine redirects; identical textual cuts natively). Cookie states and methods case-split. The route check is structural, not a solver query.",
